@@ -1260,6 +1260,11 @@ def _b_map(eng, args, kwargs):
 
 def _b_iter(eng, args, kwargs):
     v = args[0]
+    if len(args) == 2:  # iter(callable, sentinel): modelled where the callable is a method whose owner says what that iteration is
+        hook = v.recv.proto.get("__iter_sentinel__") if isinstance(v, NativeMethod) and isinstance(v.recv, Opaque) else None
+        if hook is None:
+            raise Unsupported("iter(callable, sentinel)")
+        return Iter(hook(eng, v.recv, v.name, args[1]))
     return v if isinstance(v, Iter) else Iter(v)
 
 
